@@ -755,9 +755,46 @@ def probe(ctx, n):
         D, V = world.D, world.V
         aid = itertools.count(1)
 
+        class Nest(D.Detector):
+            """Detector subclass whose build_antennas stores its antennas as raw lists nested `depth` levels
+            ([antenna], [pair][antenna], [string][pair][antenna])"""
+            def set_positions(self, ps):
+                self.antenna_positions.extend(ps)
+
+            def build_antennas(self, depth):
+                ants = [world.StubAnt(p) for p in self.antenna_positions]
+                self.leaves = ants
+                if depth == 1:
+                    self.subsets = list(ants)
+                elif depth == 2:
+                    self.subsets = [ants[i:i + 2] for i in range(0, len(ants), 2)]
+                else:
+                    self.subsets = [[ants[i:i + 1] for i in range(j, min(j + 2, len(ants)))]
+                                    for j in range(0, len(ants), 2)]
+
+        def mk_nest(depth_levels):
+            o = Nest([(next(aid), 0, -rng.randint(1, 5)) for _ in range(rng.randint(1, 6))])
+            o.build_antennas(depth_levels)
+            return o, list(o.leaves)
+
+        # a nested-list detector on its own (any nesting depth): iteration, len and indexing agree
+        o, leaves = mk_nest(rng.choice([1, 2, 3]))
+        got = list(o)
+        if not (len(got) == len(leaves) == len(o) and all(a is b for a, b in zip(got, leaves))
+                and all(o[i] is leaves[i] and o[-i - 1] is leaves[-i - 1] for i in range(len(leaves)))):
+            ctx.fail("probe:nested-lists:%d" % t,
+                     "a detector whose subsets are raw lists nested up to 3 levels does not iterate / index exactly its "
+                     "antennas: %d antennas built, iteration yields %s, len %d" % (
+                         len(leaves), [type(x).__name__ for x in got][:8], len(o)),
+                     {"kind": "probe", "seed": ctx.seed, "index": t, "how": "nested-lists"}, witness=True)
+            bad += 1
+
         def mk(depth):
             """returns (object, expected leaves in order)"""
             r = rng.random()
+            if r < 0.12:
+                # _test_positions of an enclosing detector looks one list level deep: depth <= 2 when combined
+                return mk_nest(rng.choice([1, 2]))
             if depth <= 0 or r < 0.35:
                 pos = [(next(aid), -rng.randint(0, 5)) for _ in range(rng.randint(0, 3))]
                 o = world.classes[rng.choice([0, 5])](pos)
@@ -982,8 +1019,8 @@ def run(ctx):
         nb = probe(ctx, ctx.n(400, 1500))
         ctx.extra["search"] = {"ran": True, "oracle": "leaves in construction order recorded by the harness while building", "failures": nb}
     else:
-        nb = probe(ctx, 40)
-        ctx.extra["search"] = {"ran": True, "size": 40, "failures": nb}
+        nb = probe(ctx, 80)
+        ctx.extra["search"] = {"ran": True, "size": 80, "failures": nb}
 
 
 def replay(ctx, obj):
